@@ -298,6 +298,17 @@ def GChan.allFinish (g : GChan) (one : Bool) (status : SRes) (st : WSt) : Step G
       (evs ++ valDrops g.c g.kind early ++ [evP g.c .ready, .ch (if one then .wores else .wares) (g.c :: res)] ++
        valDrops g.c g.kind res)
 
+/-- what `write_all` / `write_one` does after one of its writes completed with `(res, st)`: the `while`
+loop goes on with the SAME buffer (`write_buf`) as long as writes complete and something remains;
+otherwise the function ends (`allFinish`) -/
+def GChan.allAfter (g : GChan) (one first : Bool) (res : SRes) (st : WSt) : Step GChan :=
+  let status : SRes := if !first && res == .cancelled then .complete 0 else res
+  match status with
+  | .complete _ =>
+    if st.buf.remaining == 0 then g.allFinish one status st
+    else .ok { g with act := .sall one (.awaiting false (WOp.new st)), running := true } []
+  | _ => g.allFinish one status st
+
 /-- one `await` point of `write_all` / `write_one` -/
 def GChan.pollAll (g : GChan) (e : Env) (one : Bool) (first : Bool) (w : WOp WSt WSt) (ans : Nat) : Step (GChan × Env) :=
   (pollComplete streamWriteOps w e ans).bind fun (r, w1, e1) =>
@@ -306,13 +317,7 @@ def GChan.pollAll (g : GChan) (e : Env) (one : Bool) (first : Bool) (w : WOp WSt
     | .ready (res, st) =>
       -- the `RawStreamWrite` temporary of the `await` is dropped
       let (e2, tevs) := taskDropEvs w1 e1
-      (Step.emit tevs).bind fun _ =>
-        let status : SRes := if !first && res == .cancelled then .complete 0 else res
-        match status with
-        | .complete _ =>
-          if st.buf.remaining == 0 then (g.allFinish one status st).bind fun g' => .ok (g', e2) []
-          else .ok ({ g with act := .sall one (.awaiting false (WOp.new st)), running := true }, e2) []
-        | _ => (g.allFinish one status st).bind fun g' => .ok (g', e2) []
+      (Step.emit tevs).bind fun _ => (g.allAfter one first res st).bind fun g' => .ok (g', e2) []
 
 /-- end of `next()` (and of the adapter's `async` block around it): `buf.pop()` -/
 def popLast (c : Nat) (kind : PKind) (buf : List Nat) : List Ev × List Nat :=
@@ -700,6 +705,9 @@ def ChanSys.step (s : ChanSys) : CLabel → Step ChanSys
   | .dropOp ans =>
     let s1 := s.syncCancel ans
     if s1.g.act.isNone then s1.absorb (.ok (s1.g, s1.env) [Ev.dropNone s1.g.c])
+    else if (match s1.g.act with | .adnext => true | _ => false) then
+      -- the adapter's `Next` future only borrows the adapter: the read lives on inside it
+      s1.absorb ((s1.g.skip).bind fun g' => .ok (g', s1.env) [])
     else s1.absorb ((Step.emit [Ev.dropF s1.g.c]).bind fun _ => s1.g.dropAct s1.env ans)
   | .close explicit ans => let s1 := s.syncCancel ans; s1.absorb (s1.g.close s1.env explicit ans)
   | .deferStart ans =>
